@@ -61,7 +61,7 @@ Definition decode_all (ms : list msg) : list rinfo := concat (map decode ms).
 
 (* ---------- full synchronisation ---------- *)
 Definition all_truncated (trunc : list string) : Prop :=
-  mem_str "metas" trunc = true /\ mem_str "stats" trunc = true /\ mem_str "leaders" trunc = true.
+  mem_str "Regions" trunc = true /\ mem_str "RegionStats" trunc = true /\ mem_str "RegionLeaders" trunc = true.
 
 Lemma is_nil_false {X} (l : list X) : l <> [] -> (match l with [] => true | _ => false end) = false.
 Proof. destruct l; [congruence|reflexivity]. Qed.
@@ -537,3 +537,146 @@ Proof.
   intros Hs Hv Ho Hold. exact (full_sync_over_stale_cache_pf _ _ cap kv regions old code_all_truncated Hs Hv Ho Hold).
 Qed.
 
+
+(* ---------- stream faults: connections cut between messages, reconnects, failing follower saves ---------- *)
+Lemma cache_apply_regions_ok ros : forall f,
+  f_cache (fold_left apply_region_ok ros f) = fold_left check_and_put (map fst ros) (f_cache f).
+Proof.
+  induction ros as [|[r ok] ros IH]; intros f; cbn [fold_left map fst]; [reflexivity|].
+  rewrite IH. destruct ok; reflexivity.
+Qed.
+
+Lemma with_oks_fst rs : forall oks, map fst (with_oks rs oks) = rs.
+Proof. induction rs as [|r rs IH]; intros oks; cbn [with_oks map fst]; [reflexivity|]. rewrite IH. reflexivity. Qed.
+
+(* whichever of its own saves fail, the follower's cache is the replay of what the message carried *)
+Lemma cache_apply_msg_ok f m oks : f_cache (apply_msg_ok f m oks) = fold_left check_and_put (decode m) (f_cache f).
+Proof.
+  unfold apply_msg_ok. rewrite cache_apply_regions_ok, with_oks_fst.
+  destruct (next_index (buf (f_hist f)) =? g_start m); reflexivity.
+Qed.
+
+Lemma cache_run_msgs_ok (oks : msg -> list bool) ms : forall f,
+  f_cache (fold_left (fun f m => apply_msg_ok f m (oks m)) ms f) = fold_left check_and_put (decode_all ms) (f_cache f).
+Proof.
+  induction ms as [|m ms IH]; intros f; cbn [fold_left]; [reflexivity|].
+  rewrite IH, cache_apply_msg_ok. unfold decode_all. cbn [map concat]. rewrite fold_left_app. reflexivity.
+Qed.
+
+Definition delivered (s : session) : list rinfo := decode_all (firstn (s_delivered s) (s_msgs s)).
+
+(* any number of sessions, each cut after any number of messages, any save failures: the follower's cache is the
+   replay, in order, of exactly the regions that were delivered *)
+Theorem sessions_replay_pf ss : forall f,
+  f_cache (fold_left run_session ss f) = fold_left check_and_put (concat (map delivered ss)) (f_cache f).
+Proof.
+  induction ss as [|s ss IH]; intros f; cbn [fold_left map concat]; [reflexivity|].
+  rewrite IH. unfold run_session. rewrite cache_run_msgs_ok. rewrite fold_left_app. reflexivity.
+Qed.
+
+Lemma decode_all_app a b : decode_all (a ++ b) = decode_all a ++ decode_all b.
+Proof. unfold decode_all. rewrite map_app, concat_app. reflexivity. Qed.
+
+(* what a cut stream has delivered is a prefix of what the complete stream carries *)
+Lemma delivered_is_prefix ms rs k : decode_all ms = rs ->
+  decode_all (firstn k ms) = firstn (length (decode_all (firstn k ms))) rs.
+Proof.
+  intros <-. rewrite <- (firstn_skipn k ms) at 3. rewrite decode_all_app.
+  rewrite firstn_app, Nat.sub_diag, firstn_all. cbn [firstn]. rewrite app_nil_r. reflexivity.
+Qed.
+
+Lemma in_firstn {X} : forall n (l : list X) x, In x (firstn n l) -> In x l.
+Proof.
+  induction n as [|n IH]; intros [|y l] x H; cbn [firstn] in H; try contradiction.
+  destruct H as [->|H]; [left; reflexivity|right; apply IH; exact H].
+Qed.
+
+Lemma region_set_firstn j : forall rs, region_set rs -> region_set (firstn j rs).
+Proof.
+  induction j as [|j IH]; intros [|r rs] H; cbn [firstn region_set]; auto.
+  destruct H as [H1 H2]. split; [|apply IH; exact H2].
+  intros o Ho. apply H1. apply (in_firstn j). exact Ho.
+Qed.
+
+(* a full synchronisation cut after any number of batches, into an empty follower, whatever saves fail: the follower
+   holds exactly a prefix of the leader's region list, each region with the leader's range, peers, leader and statistics *)
+Theorem cut_full_sync_pf cap kv regions k fails :
+  region_set regions -> leaders_valid regions ->
+  let f := run_session (finit cap kv) (Sess (full_sync_impl regions) k fails) in
+  exists j, f_cache f = rev (firstn j regions) /\
+            forall r, In r (firstn j regions) -> find_id (f_cache f) (m_id (meta r)) = Some r.
+Proof.
+  intros Hs Hv f. unfold f, run_session. cbn [s_delivered s_msgs s_fails].
+  rewrite cache_run_msgs_ok. cbn [finit f_cache].
+  assert (Hall : decode_all (full_sync_impl regions) = regions).
+  { unfold full_sync_impl. rewrite full_sync_decodes_all_truncated by exact code_all_truncated. apply map_norm_valid. exact Hv. }
+  rewrite (delivered_is_prefix _ _ k Hall).
+  set (j := length (decode_all (firstn k (full_sync_impl regions)))). exists j.
+  pose proof (region_set_firstn j regions Hs) as Hsj.
+  rewrite put_all_disjoint; [|intros o r []|exact Hsj]. rewrite app_nil_r.
+  split; [reflexivity|]. intros r Hin. apply find_id_in_set; assumption.
+Qed.
+
+Lemma older_versions_prefix j regions : older_versions (rev (firstn j regions)) regions.
+Proof.
+  intros o Ho. apply in_rev in Ho. exists o. split; [apply (in_firstn j); exact Ho|].
+  split; [reflexivity|]. split; [|lia]. unfold same_range. rewrite !Z.eqb_refl. reflexivity.
+Qed.
+
+Lemma region_set_rev_firstn j regions : region_set regions -> region_set (rev (firstn j regions)).
+Proof.
+  intros Hs. pose proof (region_set_firstn j regions Hs) as H. destruct (region_set_spec _ H) as [N P].
+  set (l := firstn j regions) in *. clearbody l. clear H Hs.
+  assert (G : forall l', (forall x, In x l' -> In x l) -> NoDup (map rid l') -> region_set l').
+  { induction l' as [|x l' IH]; intros Hin Hn; [exact I|]. cbn [map] in Hn. inversion Hn as [|? ? Hnot Hn']; subst.
+    split; [|apply IH; [intros y Hy; apply Hin; right; exact Hy|exact Hn']].
+    intros o Ho. assert (Hne : rid o <> rid x).
+    { intros E. apply Hnot. rewrite <- E. apply in_map. exact Ho. }
+    split; [exact Hne|]. apply P; [apply Hin; left; reflexivity|apply Hin; right; exact Ho|congruence]. }
+  apply G.
+  - intros x Hx. apply in_rev. exact Hx.
+  - rewrite map_rev. apply NoDup_rev. exact N.
+Qed.
+
+(* convergence after reconnection: wherever the first full synchronisation was cut and whichever saves failed, a later
+   full synchronisation that runs to completion leaves the follower with every region of the leader *)
+Theorem reconnect_full_sync_converges_pf cap kv regions k fails fails2 :
+  region_set regions -> leaders_valid regions ->
+  let f1 := run_session (finit cap kv) (Sess (full_sync_impl regions) k fails) in
+  let ms := full_sync_impl regions in
+  let f2 := run_session f1 (Sess ms (length ms) fails2) in
+  forall r, In r regions -> find_id (f_cache f2) (m_id (meta r)) = Some r.
+Proof.
+  intros Hs Hv f1 ms f2 r Hin.
+  destruct (cut_full_sync_pf cap kv regions k fails Hs Hv) as (j & Hc & _). fold f1 in Hc.
+  unfold f2, run_session. cbn [s_delivered s_msgs s_fails]. rewrite firstn_all, cache_run_msgs_ok, Hc.
+  unfold ms, full_sync_impl. rewrite full_sync_decodes_all_truncated by exact code_all_truncated.
+  rewrite map_norm_valid by exact Hv.
+  pose proof (stale_cache_fold regions (rev (firstn j regions)) Hs (region_set_rev_firstn j regions Hs)
+                (older_versions_prefix j regions) regions [] eq_refl) as F.
+  cbn [rev app] in F.
+  assert (Eold : forall old, filter (not_in []) old = old).
+  { clear. induction old as [|o l IH]; cbn; [reflexivity|]. f_equal. exact IH. }
+  rewrite Eold in F. rewrite F, find_id_app, (find_id_in_set regions r Hs Hin). reflexivity.
+Qed.
+
+(* the follower's index after a message, with failing saves: the message's start index plus the saves that succeeded *)
+Lemma index_apply_regions_ok ros : forall f,
+  index (buf (f_hist (fold_left apply_region_ok ros f))) =
+  index (buf (f_hist f)) + Z.of_nat (length (filter snd ros)).
+Proof.
+  induction ros as [|[r ok] ros IH]; intros f; cbn [fold_left filter snd length]; [lia|].
+  rewrite IH. destruct ok; cbn [apply_region_ok filter snd length f_hist].
+  - unfold apply_region; cbn [f_hist]. rewrite index_record. lia.
+  - reflexivity.
+Qed.
+
+Theorem follower_index_after_msg_ok_pf f m oks :
+  next_index (buf (f_hist (apply_msg_ok f m oks))) =
+  g_start m + Z.of_nat (length (filter snd (with_oks (decode m) oks))).
+Proof.
+  unfold apply_msg_ok, next_index.
+  destruct (index (buf (f_hist f)) =? g_start m) eqn:E; rewrite index_apply_regions_ok.
+  - apply Z.eqb_eq in E. rewrite E. reflexivity.
+  - reflexivity.
+Qed.
